@@ -3,6 +3,8 @@
 import glob, json, os, re
 rows = []
 for d in sorted(glob.glob('/verif/seeded/*')):
+    if not os.path.exists(os.path.join(d, 'meta.json')):
+        continue
     m = json.load(open(os.path.join(d, 'meta.json')))
     sid = m.get('seed_id', os.path.basename(d))
     summ = re.sub(r'\s+', ' ', m.get('summary', ''))[:230]
